@@ -274,9 +274,9 @@ type vOp struct {
 	// branch the state for it); whatever it wrote before refusing stays
 	unbranched bool
 	kind       string
-	signer chain.Key
-	msg    sdk.Msg
-	fee    sdk.Coins
+	signer     chain.Key
+	msg        sdk.Msg
+	fee        sdk.Coins
 	// parameters kept for the oracle
 	owner, to, pool string
 	amount          *big.Int
